@@ -193,6 +193,8 @@ class Runner(object):
                               read_timeout_s=rt, auth_callback=acb if op.get("cb") else None)
                 res = "ok " + canon_val("bool", v)
             elif kind == "close":
+                if op.get("transport_close_raises"):
+                    self.link.close_raises_once = True      # oracle-only scenarios: the model's transport close never fails
                 self.call(d.close)
                 res = "ok none"
             elif kind in ("shell", "exec_out"):
